@@ -271,10 +271,14 @@ def pack_dataclass(spec: ValueSpec) -> Optional[Expression]:
         else:
             cls_alias = clean_id(type_name(spec.origin_type))
             method_name_alias = f"{cls_alias}_{method_name}"
+            method_args = spec.expression
+            if not hasattr(spec.attrs, method_name):
+                # the class refers to itself and its method is being built
+                # right now: look it up on the holder at call time
+                return f"{spec.cls_attrs_name}.{method_name}({method_args})"
             spec.builder.ensure_object_imported(
                 getattr(spec.attrs, method_name), method_name_alias
             )
-            method_args = spec.expression
             return f"{method_name_alias}({method_args})"
 
 
